@@ -220,7 +220,9 @@ def judge(case):
         # shrinking freely may have walked from this failure to a smaller line that fails for a reason already listed:
         # shrink again, keeping the way it fails, and sign that
         sig2, minimal2 = classify(args, follower, lead, sep, sym, preserve=True)
-        if sig2 != sig:
+        # (when no single argument fails in the same way on its own the second shrink has nothing to say: the signature
+        # of such a line would name whatever characters happen to stand in it)
+        if sig2 != sig and not sig2.startswith("C01:combination:"):
             res["signature_when_shrunk_freely"] = sig
             sig, minimal = sig2, minimal2
     res["symptom"] = sym
